@@ -14,7 +14,8 @@ declare -A DEST=( [C01-a]=tests/seed_demo.rs [C03-a]=tests/seed_c03_demo.rs [C05
  [C17-a]=crates/polytune-server-core/tests/c17_demo.rs [C10-a]=APPEND:src/mpc/faand.rs [C19-a]=MOD:src/utils/c19_demo.rs:src/utils.rs:c19_demo
  [C02-a]=tests/c02_demo.rs [C04-a]=tests/c04_demo.rs [C06-a]=tests/c06_mask_reuse.rs [C07-a]=tests/c07_seed_demo.rs
  [C13-b]=crates/polytune-server-core/tests/c13_demo.rs [C15-b]=crates/polytune-server-core/tests/seed_c15b_demo.rs
- [C17-b]=crates/polytune-server-core/tests/seed_c17b_demo.rs [C20-a]=MOD:src/transpose/seed_demo.rs:src/transpose.rs:seed_demo )
+ [C17-b]=crates/polytune-server-core/tests/seed_c17b_demo.rs [C01-b]=tests/seed_c01b_demo.rs [C05-b]=tests/c05_b_demo.rs [C09-b]=tests/c09_demo.rs [C12-b]=tests/c12_demo.rs
+ [C20-a]=MOD:src/transpose/seed_demo.rs:src/transpose.rs:seed_demo )
 names=${@:-$(ls -d /verif/seeded/*/ | xargs -n1 basename)}
 for s in $names; do
   d=/verif/seeded/$s; dest=${DEST[$s]}
